@@ -39,7 +39,7 @@ def invalid_for_slot(type_, key, value):
 
 def valid_profile(**kw):
     p = model.Profile(valid=True, dups=False, max_depth=4, max_items=6, lookalike_multi=False, includes=True, kv_roots=False,
-                      symbolset=False, multi_root=False)
+                      symbolset=False, multi_root=False, inline_symbol=False)
     p.__dict__.update(kw)
     return p
 
